@@ -833,7 +833,245 @@ func c05GenMatchBytes(r *rand.Rand, tier string, emit func(Case)) {
 	}
 }
 
+// ---------------------------------------------------------------- strnum-range
+//
+// String operands that LOOK like numerals around and beyond the limits of a
+// double.  The coercion rule (value.go asFloat64): strconv.ParseFloat(s, 64)
+// decides; on ANY error -- a syntax error, but also ErrRange, where ParseFloat
+// hands back +/-Inf -- the string counts as 0 ("anything else 0").  Underflow is
+// not an error (the value is +/-0), "Inf" / "NaN" spellings are accepted by
+// ParseFloat and are the one way a string coerces to a non-finite number.
+
+// c05Coerce is the property's coercion of a string to a number.
+func c05Coerce(s string) float64 {
+	v, err := strconv.ParseFloat(s, 64)
+	if err != nil {
+		return 0
+	}
+	return v
+}
+
+func c05Fmt(v float64) string { return strconv.FormatFloat(v, 'f', -1, 64) }
+
+// c05Cmp: the three-way comparison of numeric coercions (value.go Compare)
+func c05Cmp(a, b float64) int {
+	if a > b {
+		return 1
+	} else if a < b {
+		return -1
+	}
+	return 0
+}
+
+func c05RangeStrings(r *rand.Rand, tier string) []string {
+	base := []string{
+		// around the overflow limit (largest double 1.7976931348623157e308; halfway to 2^1024 is 1.797693134862315807937e308)
+		"1e308", "1.7e308", "1.7976931348623157e308", "1.7976931348623158e308", "1.79769313486231580793e308", "1.797693134862315807937e308",
+		"1.797693134862315808e308", "1.7976931348623159e308", "1.8e308", "2e308", "9e308", "1e309", "1e310", "1e400", "1e999", "1e9999", "1e99999999999999999999",
+		"1E999", "1e+999", "1.e999", ".1e999", "0.1e310", "10e308", "179769313486231570e291", "17976931348623158e292", "0e999", "0.0e999", "00e9999",
+		"123456789e300", "123456789e301", "4e307", "4e308",
+		// around the underflow limit (smallest subnormal 5e-324, half of it 2.47e-324)
+		"1e-307", "2.2250738585072014e-308", "2.2250738585072011e-308", "1e-323", "5e-324", "4.9e-324", "3e-324", "2.5e-324", "2.4703282292062328e-324", "2.4703282292062327e-324",
+		"2e-324", "1e-324", "1e-325", "1e-400", "1e-999", "1e-99999999999999999999", "0.1e-323",
+		// hex floats
+		"0x1p0", "0x1p10", "0x1p1023", "0x1.fffffffffffffp1023", "0x1.fffffffffffff8p1023", "0x1.fffffffffffff7p1023", "0x1p1024", "0x2p1023", "0x1p1025", "0x1p99999", "0x1p9999999999999999999",
+		"0X1P99999", "0x.1p1028", "0x1p-1022", "0x1p-1074", "0x1p-1075", "0x1.8p-1075", "0x1p-1076", "0x1p-99999", "0x10", "0x1p", "0x1.8", "0xp5", "0x1p+2000", "0x0p99999",
+		// long digit runs
+		"1" + strings.Repeat("0", 307), "1" + strings.Repeat("0", 308), "1" + strings.Repeat("0", 309), "1" + strings.Repeat("0", 399), strings.Repeat("9", 308), strings.Repeat("9", 309), strings.Repeat("9", 400),
+		"17976931348623157" + strings.Repeat("0", 292), "17976931348623159" + strings.Repeat("0", 292), "1" + strings.Repeat("0", 399) + ".5", "1" + strings.Repeat("0", 400) + "e-100", "1" + strings.Repeat("0", 400) + "e-200",
+		"0." + strings.Repeat("0", 323) + "5", "0." + strings.Repeat("0", 400) + "1", "0." + strings.Repeat("0", 400) + "1e200", strings.Repeat("0", 400) + "7", "0." + strings.Repeat("0", 306) + "1",
+		// the spellings ParseFloat takes for non-finite values, and look-alikes it does not
+		"Inf", "inf", "+Inf", "-Inf", "Infinity", "-infinity", "INF", "NaN", "nan", "-nan", "infin", "in", "1inf", "inf1", "1e", "e999", "1e99x", "1e9.9", "1_0e400", "1e4_00", "0x_1p99999",
+		// ordinary strings for contrast
+		"0", "-0", "7", "2.5", "1e3", "abc", "", "10",
+	}
+	var out []string
+	seen := map[string]bool{}
+	add := func(s string) {
+		if !seen[s] && !strings.ContainsAny(s, "'\"\\\n") {
+			seen[s] = true
+			out = append(out, s)
+		}
+	}
+	for _, s := range base {
+		add(s)
+	}
+	// signs and blanks (a blank anywhere makes it a syntax error for ParseFloat: 0)
+	for _, s := range base {
+		if s == "" {
+			continue
+		}
+		for _, v := range []string{"-" + s, "+" + s, " " + s, s + " ", "\t" + s, "- " + s, "--" + s} {
+			if tier == "thorough" || chance(r, 0.3) || s == "1e999" || s == "0x1p99999" || s == "1e-400" {
+				add(v)
+			}
+		}
+	}
+	// random numerals: mantissa digits and an exponent near the limits
+	for i, n := 0, tierN(tier, 60, 1500); i < n; i++ {
+		m := c05Digits(r, "123456789", 1)
+		if chance(r, 0.6) {
+			m += "." + c05Digits(r, "0123456789", 1+r.Intn(18))
+		}
+		e := pick(r, []int{307, 308, 308, 309, 310, 350, 999, -307, -308, -322, -323, -324, -325, -330, -999})
+		s := pick(r, []string{"", "", "-", "+"}) + m + pick(r, []string{"e", "E"}) + strconv.Itoa(e)
+		if chance(r, 0.2) {
+			s = pick(r, []string{"", "-"}) + "0x1." + c05Digits(r, "0123456789abcdef", 1+r.Intn(13)) + "p" + strconv.Itoa(pick(r, []int{1022, 1023, 1024, 1025, 5000, -1022, -1074, -1075, -1080, -5000}))
+		}
+		add(s)
+	}
+	return out
+}
+
+func c05GenStrRange(r *rand.Rand, tier string, emit func(Case)) {
+	nt := func(i Resp) bool { return i["class"] == "ok" || i["class"] == "runtime" }
+	strs := c05RangeStrings(r, tier)
+	b2s := func(b bool) string {
+		if b {
+			return "true"
+		}
+		return "false"
+	}
+	intOK := func(v float64) bool { return v == v && v > -4e18 && v < 4e18 }
+	// the ways the string reaches the operator: X is the operand text
+	type ctx struct{ name, head, pre, x string }
+	contexts := func(s string) []ctx {
+		lit := "'" + s + "'"
+		cs := []ctx{
+			{"literal", "", "", lit},
+			{"variable", "", "v = " + lit + "; ", "v"},
+			{"argument", "function id(a) { return a }\n", "", "id(" + lit + ")"},
+			{"element", "", "arr = [1, " + lit + "]; ", "arr[1]"},
+			{"doc-field", "", "", "$.s"},
+		}
+		if len(s) >= 2 {
+			h := 1 + r.Intn(len(s)-1)
+			cs = append(cs, ctx{"concat", "", "", "('" + s[:h] + "' + '" + s[h:] + "')"})
+		}
+		return cs
+	}
+	others := []string{"1e999", "-1e999", "0x1p99999", "1e308", "-1e308", "5e-324", "1e-400", "Inf", "-Inf", "NaN", "0", "7", "abc", "1" + strings.Repeat("0", 399)}
+	for _, s := range strs {
+		v := c05Coerce(s)
+		_, perr := strconv.ParseFloat(s, 64)
+		kind := "in-range"
+		switch {
+		case perr != nil && strings.Contains(perr.Error(), "out of range"):
+			kind = "out-of-range"
+		case perr != nil:
+			kind = "not-a-numeral"
+		case v != v || v > 1.7976931348623157e308 || v < -1.7976931348623157e308:
+			kind = "non-finite-spelling"
+		case v == 0 && strings.ContainsAny(s, "123456789"):
+			kind = "underflow"
+		}
+		o := pick(r, others)
+		w := c05Coerce(o)
+		type tmpl struct {
+			name, stmt string
+			want       string // expected output after "pre\n"; "!" = runtime error right there; "?" = no oracle (model only)
+		}
+		var ts []tmpl
+		T := func(name, stmt, want string) { ts = append(ts, tmpl{name, stmt, want}) }
+		T("arith", "print X * 1, X - 0, 0 - X, 2 * X, X * X", strings.Join([]string{c05Fmt(v * 1), c05Fmt(v - 0), c05Fmt(0 - v), c05Fmt(2 * v), c05Fmt(v * v)}, " ")+"\n")
+		T("arith-is-zero", "print X - 0 == 0, X * 1 is number, X * 1 < 1, X * 1 > -1", strings.Join([]string{b2s(c05Cmp(v, 0) == 0), "true", b2s(c05Cmp(v, 1) < 0), b2s(c05Cmp(v, -1) > 0)}, " ")+"\n")
+		T("unary", "print -X, +X, - -X, +X is number", strings.Join([]string{c05Fmt(-v), c05Fmt(v), c05Fmt(v), "true"}, " ")+"\n")
+		for _, c := range []struct {
+			txt string
+			val float64
+		}{{"0", 0}, {"5", 5}, {"(-5)", -5}, {"num('1e308')", 1e308}, {"true", 1}, {"false", 0}, {"num('-1e308')", -1e308}} {
+			k := c05Cmp(v, c.val)
+			T("compare "+c.txt, fmt.Sprintf("print X > %s, X < %s, X == %s, X != %s, X <= %s, X >= %s, %s < X, %s == X", c.txt, c.txt, c.txt, c.txt, c.txt, c.txt, c.txt, c.txt),
+				strings.Join([]string{b2s(k > 0), b2s(k < 0), b2s(k == 0), b2s(k != 0), b2s(k <= 0), b2s(k >= 0), b2s(c05Cmp(c.val, v) < 0), b2s(c05Cmp(c.val, v) == 0)}, " ")+"\n")
+		}
+		T("compare null", "print X > null, X == null, null < X", "true false true\n")
+		T("contains", "print [0].contains(X), [5, true].contains(X), [null].contains(X)", strings.Join([]string{b2s(c05Cmp(v, 0) == 0), b2s(c05Cmp(v, 5) == 0 || c05Cmp(v, 1) == 0), "false"}, " ")+"\n")
+		switch {
+		case !intOK(v):
+			T("percent", "print X % 7", "?")
+			T("percent-divisor", "print 7 % X", "?")
+		default:
+			T("percent", "print X % 7, X % -3", fmt.Sprintf("%d %d\n", int(v)%7, int(v)%-3))
+			if int(v) == 0 {
+				T("percent-divisor", "print 7 % X", "!")
+			} else {
+				T("percent-divisor", "print 7 % X, -7 % X", fmt.Sprintf("%d %d\n", 7%int(v), -7%int(v)))
+			}
+		}
+		// 7 % true is 0; 7 % false is a runtime error: the comparison result used as a divisor (the seeded witness)
+		if c05Cmp(v, 0) == 0 {
+			T("percent-of-compare", "print 7 % (X * 1 == 0)", "0\n")
+		} else {
+			T("percent-of-compare", "print 7 % (X * 1 == 0)", "!")
+		}
+		if v == 0 { // the divisor test is `== 0` on the double: NaN passes it
+			T("divide", "print 1 / X", "!")
+			T("divide-assign", "x = 10; x /= X; print x", "!")
+		} else {
+			T("divide", "print 1 / X, X / 2", c05Fmt(1/v)+" "+c05Fmt(v/2)+"\n")
+			T("divide-assign", "x = 10; x /= X; print x", c05Fmt(10/v)+"\n")
+		}
+		truthy := len(s) > 0
+		T("truth", "if (X) print 'T'; else print 'E'\n print !X, !!X, X && true, X || false", map[bool]string{true: "T\nfalse true true true\n", false: "E\ntrue false false false\n"}[truthy])
+		T("truth-while", "n = 0; while (X && n < 2) n++\n print n", map[bool]string{true: "2\n", false: "0\n"}[truthy])
+		T("incdec", "x = X; r = x++; print r, x, x is number; x = X; r = --x; print r, x; x = X; x--; ++x; print x", fmt.Sprintf("%s %s true\n%s %s\n%s\n", c05Fmt(v), c05Fmt(v+1), c05Fmt(v-1), c05Fmt(v-1), c05Fmt(v-1+1)))
+		T("op-assign", "x = 10; x -= X; print x; x = 10; x *= X; print x; x = 10; x += X; print x", fmt.Sprintf("%s\n%s\n10%s\n", c05Fmt(10-v), c05Fmt(10*v), s))
+		T("concat", "print X + 1, 1 + X, X + X == X * 2", fmt.Sprintf("%s1 1%s %s\n", s, s, b2s(c05Cmp(c05Coerce(s+s), v*2) == 0)))
+		if _, err := strconv.ParseFloat(s, 64); err != nil {
+			T("num", "print num(X), num(X) is null, num(X) + 1", "null true 1\n")
+		} else {
+			T("num", "print num(X), num(X) is number, num(X) + 1", fmt.Sprintf("%s true %s\n", c05Fmt(v), c05Fmt(v+1)))
+		}
+		T("is", "print X is string, X is number", "true false\n")
+		// a second string operand: arithmetic coerces both, comparison is bytewise
+		T("two-strings", fmt.Sprintf("y = '%s'; print X - y, X * y, y - X, X < y, X == y, X > y", o),
+			fmt.Sprintf("%s %s %s %s %s %s\n", c05Fmt(v-w), c05Fmt(v*w), c05Fmt(w-v), b2s(strings.Compare(s, o) < 0), b2s(s == o), b2s(strings.Compare(s, o) > 0)))
+		T("index", "print [10, 11, 12][X * 1 == 0], 'ab'[X - 0 != 0]", "?")
+		T("sort", "print [3, X, -1].sort(), [X, '5'].sort()", "?")
+		T("pattern-subject", "print X ~ /9/, X ~ '^-', (X * 1) ~ /^0$/", "?")
+		for _, c := range contexts(s) {
+			var files []File
+			if c.name == "doc-field" {
+				files = []File{{Name: "in.json", Data: []byte(`{"s": ` + jsonString(s) + `}`)}}
+			}
+			for _, t := range ts {
+				if tier != "thorough" && c.name != "literal" && c.name != "doc-field" && !chance(r, 0.4) {
+					continue
+				}
+				body := "print \"pre\"; " + c.pre + strings.ReplaceAll(t.stmt, "X", c.x) + "\n print \"post\""
+				prog := c.head + "BEGIN { " + body + " }\n"
+				if files != nil {
+					prog = c.head + "{ " + body + " }\n"
+				}
+				meta := metaProg(prog, "string", fmt.Sprintf("%q", short(s)), "coerces-to", c05Fmt(v), "numeral-kind", kind, "context", c.name, "template", t.name, "row", kind, "col", strings.SplitN(t.name, " ", 2)[0])
+				if files != nil {
+					meta["input"] = short(string(files[0].Data))
+				}
+				cs := Case{Req: RunReq(prog, nil, files, false), Fields: []string{"class", "out"}, NonTrivial: nt, Meta: meta}
+				if t.want != "?" {
+					wantClass, wantOut := "ok", "pre\n"+t.want+"post\n"
+					if t.want == "!" {
+						wantClass, wantOut = "runtime", "pre\n"
+					}
+					cs.Oracle = func(i Resp) string {
+						if i["class"] != wantClass || string(i.Bytes("out")) != wantOut {
+							return fmt.Sprintf("a string coerces to strconv.ParseFloat's value, and to 0 on ANY error (also out of range): expected class %s out %q, got class %s out %q", wantClass, short(wantOut), i["class"], short(string(i.Bytes("out"))))
+						}
+						return ""
+					}
+				}
+				emit(cs)
+			}
+		}
+	}
+}
+
 func init() {
+	register(Family{
+		Name: "strnum-range", Prop: "C05",
+		Rule: "string operands that look like numerals around and beyond the limits of a double: decimal numerals next to the overflow limit (1e308, the largest double, the halfway point to 2^1024 on either side, 1.8e308, 1e309 ... 1e999, huge exponents), next to the underflow limit (5e-324, half of it on either side, 1e-400), hex floats (0x1p1023, 0x1p1024, 0x1p99999, subnormal and below), 308- to 400-digit integers and long fractions, the Inf / NaN spellings and look-alikes, each also with signs and leading / trailing blanks, plus random mantissa x limit exponents; as literal, variable, function argument, array element, run-time concatenation and document field; in - * / and unary + -, comparisons with numbers / booleans / null, contains, % on either side, / and /= (divide by zero exactly when the coercion is 0), a comparison result used as divisor, truthiness (if, while, ! && ||), ++ --, -= *= +=, string concatenation, num(), is, with a second such string (arithmetic coerces, comparison is bytewise), and model-only: index, sort, ~; oracle (implementation only): the expected output computed from the property's rule -- strconv.ParseFloat decides, ANY error (syntax or range, where ParseFloat hands back +/-Inf) means 0; every program is also compared with the model",
+		Gen:  c05GenStrRange,
+	})
 	register(Family{
 		Name: "literal-spellings", Prop: "C05",
 		Rule: "numeric literals in unusual spellings (leading zeros over octal-looking and non-octal digits: 010 0017 0755 007 08 019; 0 00 000; fractions with leading / trailing zeros: 00.5 010.0 1.500; digit runs of 15-400 digits incl. 2^53+1, 2^63, 2^64, the float64 maximum and just beyond (out of range: runtime error), fractions that underflow) as left and right operand of all 15 binary operators against pool operands and against other spelled literals, under unary - + !, `is`, as array / string index, in %, in array / object literals, arguments, match patterns, ++ -- op=, number methods, printf / json / num, loop bounds, conditions and regex operands; oracles (implementation only): `print LIT` shows strconv.FormatFloat(strconv.ParseFloat(LIT)), the six comparisons with the decimal spelling give true false false true false true, `%` and index results computed from the decimal value, and every program with the literal as spelled agrees with the same program using the canonical decimal spelling; every program is also compared with the model",
